@@ -975,7 +975,7 @@ class Gen:
 
 	def declare(self, env: Env, body: list[S], ty: str | None = None) -> Var:
 		r = self.r
-		ty = ty or r.choice(['int', 'int', 'int', 'bool', 'str', 'float', 'list[int]', 'list[int]', 'dict[str,int]', 'dict[int,int]', 'obj', 'unpack', 'enum'])
+		ty = ty or r.choice(['int', 'int', 'int', 'bool', 'str', 'float', 'float', 'list[int]', 'list[int]', 'dict[str,int]', 'dict[int,int]', 'obj', 'unpack', 'enum'])
 		name = self.fresh('v')
 		if ty == 'unpack':
 			# destructuring of a tuple *variable* (`x, y = (a, b)` directly is emitted as `auto [x, y] = {a, b};`, rejected by g++ — defect candidate)
